@@ -646,3 +646,79 @@ Proof.
   - apply wit_no_panic.
   - apply wit_show.
 Qed.
+
+(* ---------- fixed_point_quiet (used by C16) ---------- *)
+Lemma step_modified_mono m only s e :
+  existsb l_modified (s_lines s) = true -> existsb l_modified (s_lines (step m only s e)) = true.
+Proof.
+  intros H. unfold step. destruct (s_panic s); [exact H|].
+  destruct e as [i lv fmt msg| |i lv fmt msg expl ops| |]; try exact H.
+  - destruct (nth_error (s_lines s) i); exact H.
+  - destruct (nth_error (s_lines s) i) as [l|] eqn:En; [|exact H].
+    destruct (expl && _); [exact H|].
+    destruct (match ops with [] => false | _ => _ end); [exact H|].
+    destruct (do_ops m _ _ ops) as [f|] eqn:Eo; [|exact H].
+    pose proof (apply_fix_snd m only (s_lg s) f lv fmt msg expl) as Hs.
+    destruct (apply_fix m only (s_lg s) f lv fmt msg expl) as [g' l']. cbn [snd] in Hs.
+    cbn [s_lines]. eapply set_line_modified_mono; [exact En| |exact H].
+    intros Hl. subst l'. apply do_ops_modified in Eo. cbn [f_line] in Eo.
+    destruct (nonempty (f_acts f)); [reflexivity|congruence].
+Qed.
+
+(* with -f or -F: an AUTOFIX line has been printed only if a line is marked modified *)
+Definition Qinv (s : state) : Prop := fixes (s_lg s) <> [] -> existsb l_modified (s_lines s) = true.
+
+Lemma step_Q m only s e : is_autofix m = true -> Qinv s -> Qinv (step m only s e).
+Proof.
+  intros Hm HQ. unfold Qinv. intros Hne. 
+  destruct (existsb l_modified (s_lines s)) eqn:Em.
+  { apply step_modified_mono. exact Em. }
+  assert (Hf0 : fixes (s_lg s) = []).
+  { destruct (fixes (s_lg s)) eqn:E; [reflexivity|]. exfalso.
+    assert (X : existsb l_modified (s_lines s) = true) by (apply HQ; rewrite E; discriminate). congruence. }
+  revert Hne. unfold step. destruct (s_panic s); [congruence|].
+  destruct e as [i lv fmt msg| |i lv fmt msg expl ops| |].
+  - destruct (nth_error (s_lines s) i); cbn [s_lg panic]; [rewrite diag_fixes|]; congruence.
+  - cbn [s_lg]. unfold fixes in *. rewrite explain_out. congruence.
+  - destruct (nth_error (s_lines s) i) as [l|] eqn:En; [|cbn [s_lg panic]; congruence].
+    destruct (expl && _); [cbn [s_lg panic]; congruence|].
+    destruct (match ops with [] => false | _ => _ end); [cbn [s_lg panic]; congruence|].
+    destruct (do_ops m _ _ ops) as [f|] eqn:Eo; [|cbn [s_lg panic]; congruence].
+    pose proof (apply_fix_snd m only (s_lg s) f lv fmt msg expl) as Hs.
+    pose proof (apply_fix_fixes m only (s_lg s) f lv fmt msg expl Hm) as Hf.
+    destruct (apply_fix m only (s_lg s) f lv fmt msg expl) as [g' l']. cbn [fst snd] in *.
+    cbn [s_lg s_lines]. rewrite Hf, Hf0. cbn [app].
+    destruct (nonempty (f_acts f)).
+    + intros _. eapply set_line_modified; [exact En|]. subst l'. reflexivity.
+    + rewrite andb_false_r. congruence.
+  - cbn [s_lg]. unfold fixes in *. rewrite save_out. congruence.
+  - cbn [s_lg]. rewrite summary_fixes. congruence.
+Qed.
+
+Lemma run_events_Q m only evs : is_autofix m = true -> forall s, Qinv s -> Qinv (run_events m only s evs).
+Proof. intros Hm. induction evs as [|e evs IH]; intros s H; cbn; [exact H|]. apply IH, step_Q; auto. Qed.
+Lemma checks_Q m only (cs : list check) : is_autofix m = true -> forall s, Qinv s -> Qinv (fold_left (run_check m only) cs s).
+Proof. intros Hm. induction cs as [|c cs IH]; intros s H; cbn; [exact H|]. apply IH, run_events_Q; auto. Qed.
+
+(* if --autofix marks no line as modified (the model's fixed point: nothing is
+   written), then --show-autofix logs no action and the default run does not
+   advertise automatic fixing *)
+Theorem fixed_point_quiet only ls cs :
+  Forall fresh ls ->
+  existsb l_modified (s_lines (run Autofix only ls cs)) = false ->
+  actions (run ShowAutofix only ls cs) = []
+  /\ (s_panic (run ShowAutofix only ls cs) = false -> autofix_available (run Default only ls cs) = false).
+Proof.
+  intros Hfresh Hnm.
+  assert (HQ : Qinv (run Autofix only ls cs)).
+  { unfold run. apply step_Q; [reflexivity|]. apply checks_Q; [reflexivity|]. intros H. cbn in H. congruence. }
+  assert (Ha : actions (run ShowAutofix only ls cs) = []).
+  { rewrite show_equals_do. unfold actions. destruct (filter _ _) eqn:E; [reflexivity|].
+    exfalso.
+    assert (X : existsb l_modified (s_lines (run Autofix only ls cs)) = true)
+      by (apply HQ; unfold fixes; rewrite E; discriminate).
+    congruence. }
+  split; [exact Ha|]. intros Hnp.
+  destruct (autofix_available (run Default only ls cs)) eqn:Ea; [|reflexivity].
+  exfalso. apply (advertise_implies_show only ls cs Hfresh Hnp Ea). exact Ha.
+Qed.
